@@ -5,9 +5,11 @@ import os, subprocess, collections
 from concurrent.futures import ThreadPoolExecutor
 import common, lbtool, owntool
 
-C02_KINDS = ('view-corrupt', 'free-while-view-live', 'content-not-intact')
-C03_KINDS = ('hang:', 'double-free', 'foreign-free', 'caller-memory-freed', 'caller-memory-written', 'freed-block-in-chain', 'private-copy-in-pool-block')
+C02_KINDS = ('view-corrupt', 'free-while-view-live', 'content-not-intact', 'impl-crash')
+C03_KINDS = ('hang:', 'double-free', 'foreign-free', 'caller-memory-freed', 'caller-memory-written', 'freed-block-in-chain', 'private-copy-in-pool-block', 'impl-crash')
 KNOWN_TAG = 'D4-split-block'
+HARNESS_TIMEOUT = int(os.environ.get('VERIF_HARNESS_TIMEOUT', '900'))
+MODEL_VISIBLE = ('double-free', 'free-while-view-live', 'freed-block-in-chain', 'foreign-free', 'caller-memory-freed')
 
 def have_own_driver():
     p = subprocess.run([common.DRIVER, 'own'], stdin=subprocess.DEVNULL, stdout=subprocess.PIPE, stderr=subprocess.PIPE)
@@ -15,13 +17,39 @@ def have_own_driver():
 
 def read(p): return open(p).read().split('\n')[:-1]
 
-def run_one(binary, wd, gen_args):
+def run_one(binary, wd, gen_args, timeout=None):
+    timeout = timeout or HARNESS_TIMEOUT
     os.makedirs(wd, exist_ok=True)
     f = {n: os.path.join(wd, n) for n in ('ops', 'impl', 'own', 'model', 'spec', 'ledger')}
-    pr = subprocess.run([binary, *gen_args, '-impl-out', f['impl'], '-poison', '-own-out', f['own']], timeout=3600)
-    if pr.returncode not in (0, 3):    # 3 = watchdog: an op never returned (reported as a "hang" problem line)
-        raise RuntimeError('lbdiff exit %d' % pr.returncode)
+    # the code under test may crash the process (stack overflow, fatal error) or hang: both are findings, the last
+    # sequence on file (the harness flushes per line) is the failing input
+    crash = None
+    try:
+        p = subprocess.run([binary, *gen_args, '-impl-out', f['impl'], '-poison', '-own-out', f['own']], timeout=timeout,
+                           stdout=subprocess.DEVNULL, stderr=subprocess.PIPE)
+        if p.returncode != 0:
+            crash = 'harness process died (exit %d): %s' % (p.returncode, p.stderr.decode(errors='replace')[:300].replace('\n', ' | '))
+    except subprocess.TimeoutExpired:
+        crash = 'harness process hung (> %d s): the code under test does not return' % timeout
     ops = f['ops'] if '-ops-out' in gen_args else gen_args[gen_args.index('-replay') + 1]
+    if crash is not None:
+        for n in ('impl', 'own'):
+            if not os.path.exists(f[n]): open(f[n], 'w').close()
+        lines = read(ops)
+        n = min(len(lines), len(read(f['impl'])) + 1)       # the op that did not return is the last one
+        lines = lines[:n]
+        start = max([i for i, l in enumerate(lines) if l.startswith('seq ')] or [0])
+        # judge what completed, then add the crash as a problem of its own
+        open(ops + '.done', 'w').write('\n'.join(lines[:max(n - 1, 0)]) + '\n')
+        try:
+            res = finish_one(ops + '.done', f)
+        except Exception:
+            res = analyse([], [], [], [], [], None)
+        res['problems'].append((lines[start:], n - 1 - start, 'impl-crash', crash))
+        return res
+    return finish_one(ops, f)
+
+def finish_one(ops, f):
     with open(ops) as i, open(f['model'], 'w') as o:
         subprocess.run([common.DRIVER, 'lb'], stdin=i, stdout=o, check=True, timeout=3600)
     # the valid stream stays inside Contract (./check C01 measures ops_out_of_contract = 0 for it), so the
@@ -37,12 +65,12 @@ def run_one(binary, wd, gen_args):
 def analyse(ops, impl, own, model, spec, ledger):
     res = {'seqs': 0, 'lines': len(ops), 'problems': [], 'known': collections.Counter(), 'tainted': 0, 'hist': collections.Counter(),
            'views': 0, 'events': 0, 'finals': set(), 'samples': [], 'ledger_compared': 0}
-    cur = None; start = 0; stop = False
+    cur = None; start = 0; stop = False; nomodel = False; seq_out = False
     n = min(len(ops), len(impl), len(own), len(model), len(spec))
     for i in range(n):
         o = ops[i]
         if o.startswith('seq '):
-            cur = [o]; start = i; stop = False; res['seqs'] += 1
+            cur = [o]; start = i; stop = False; nomodel = False; seq_out = False; res['seqs'] += 1
             continue
         if cur is None: continue
         cur.append(o)
@@ -50,6 +78,8 @@ def analyse(ops, impl, own, model, spec, ledger):
         res['hist'][o.split()[0]] += 1
         if spec[i].startswith('X'):      # left the contract (should not happen in the valid stream): nothing is claimed after that
             stop = True; continue
+        own_i, _, node_dump = own[i].partition('%%')       # third section: per-node ownership fields (refer, block, origin)
+        own[i] = own_i
         ev = own[i].split('!!')[0]
         res['events'] += ev.count(' m') + ev.count(' f')
         probs = [p.strip() for p in own[i].split('!!', 1)[1].split(';')] if '!!' in own[i] else []
@@ -57,20 +87,49 @@ def analyse(ops, impl, own, model, spec, ledger):
         fresh = [p for p in probs if KNOWN_TAG not in p and p]
         for p in fresh:
             res['problems'].append((list(cur), i - start, p.split()[0], 'op=%s | %s' % (o, p)))
-        if fresh: stop = True; continue
+        if fresh:
+            # the sibling property's check must see this too: the allocator events of this op no longer match the ledger model
+            if ledger is not None and i < len(ledger) and not nomodel and not impl[i].startswith('panic'):
+                led = ledger[i].partition('%%')[0]
+                if led.split('!!')[0].strip() != ev.strip():
+                    res['problems'].append((list(cur), i - start, 'ledger-differs', 'op=%s | impl-events=%s | model-events=%s' % (o, ev.strip(), led[:300])))
+            stop = True; continue
         if known:
             for p in known: res['known'][p.split()[0]] += 1
             res['tainted'] += 1; stop = True     # memory of this sequence is corrupted by the known finding from here on
+            # the ledger model must exhibit the known finding at the same op, with the same events and the same problems
+            # (as far as a model without contents can see them)
+            if ledger is not None and i < len(ledger) and not impl[i].startswith('panic'):
+                led = ledger[i].partition('%%')[0]
+                res['cov'] = res.get('cov', collections.Counter()); res['cov'][ledger[i].partition('??')[2].strip() or 'inside-CovV'] += 1
+                lp = [p.strip() for p in led.split('!!', 1)[1].split(';')] if '!!' in led else []
+                a = [p for p in probs if p.split()[0] in MODEL_VISIBLE]; b = [p for p in lp if p.split()[0] in MODEL_VISIBLE]
+                res['ledger_compared'] += 1
+                if led.split('!!')[0].strip() != ev.strip() or (a != b and a):
+                    res['problems'].append((list(cur), i - start, 'ledger-differs', 'op=%s | impl=%s | model=%s' % (o, own[i][:300], led[:300])))
+                else:
+                    res['known_on_model'] = res.get('known_on_model', 0) + (1 if a else 0)
             continue
         # content of what a reader returns / of the readable bytes must equal the model's (poisoned frees make a premature free visible)
+        # (after a disagreement with a model the implementation-side oracle above keeps judging the rest of the sequence)
+        if nomodel: continue
         if impl[i] != model[i]:
             res['problems'].append((list(cur), i - start, 'content-not-intact', 'op=%s | impl=%s | model=%s' % (o, impl[i][:300], model[i][:300])))
-            stop = True; continue
-        if ledger is not None and i < len(ledger):
+            nomodel = True; continue
+        if ledger is not None and i < len(ledger) and not impl[i].startswith('panic'):
             res['ledger_compared'] += 1
-            if ledger[i].split('!!')[0].strip() != ev.strip():
-                res['problems'].append((list(cur), i - start, 'ledger-differs', 'op=%s | impl-events=%s | model-events=%s' % (o, ev.strip(), ledger[i][:300])))
-                stop = True; continue
+            led, _, led_dump = ledger[i].partition('%%')
+            led_dump, _, cov = led_dump.partition('??')       # is the call inside the hypotheses of the theorems?
+            res['cov'] = res.get('cov', collections.Counter()); res['cov'][cov.strip() or 'inside-CovV'] += 1
+            if cov.strip() and not seq_out:
+                seq_out = True; res['cov']['histories-leaving-CovV'] += 1
+            if led.split('!!')[0].strip() != ev.strip() or '!!' in led:
+                res['problems'].append((list(cur), i - start, 'ledger-differs', 'op=%s | impl-events=%s | model-events=%s' % (o, ev.strip(), led[:300])))
+                nomodel = True; continue
+            if led_dump.strip() != node_dump.strip():
+                res['problems'].append((list(cur), i - start, 'ledger-differs', 'op=%s | impl-nodes=%s | model-nodes=%s' % (o, node_dump.strip()[:300], led_dump.strip()[:300])))
+                nomodel = True; continue
+            res['ledger_nodes'] = res.get('ledger_nodes', 0) + led_dump.count('/') // 2
         res['finals'].add(ev.strip() + '|' + impl[i].split(' ## ')[-1][:200])
     for s in lbtool.split_seqs(ops)[:2]:
         res['samples'].append(' ; '.join(s[:25]))
@@ -86,7 +145,7 @@ def run_many(binary, base_wd, seed, shards, seqs, nops, extra=()):
 def replay_ops(binary, lines, wd):
     os.makedirs(wd, exist_ok=True)
     p = os.path.join(wd, 'replay.ops'); open(p, 'w').write('\n'.join(lines) + '\n')
-    return run_one(binary, wd, ['-replay', p])
+    return run_one(binary, wd, ['-replay', p], timeout=min(HARNESS_TIMEOUT, 30))     # a single sequence takes milliseconds
 
 def shrink(binary, seq, kind, wd):
     def differs(lines):
@@ -118,12 +177,12 @@ def check(rep, prop, kinds, modules):
         r = replay_ops(binary, [l for l in open(f).read().split('\n') if l and not l.startswith('#')], os.path.join(wd, 'corpus'))
         results.append(r)
     results += run_many(binary, wd, rep.seed, shards, seqs, nops, ['-big'] if rep.tier == 'thorough' else [])
-    known = collections.Counter(); hist = collections.Counter(); finals = set(); n = 0; tainted = 0; events = 0; ledger = 0
+    known = collections.Counter(); hist = collections.Counter(); finals = set(); n = 0; tainted = 0; events = 0; ledger = 0; lnodes = 0; kmodel = 0; covc = collections.Counter()
     for r in results:
         problems += r['problems']; known.update(r['known']); hist.update(r['hist']); finals |= r['finals']
-        n += r['seqs']; tainted += r['tainted']; events += r['events']; ledger += r['ledger_compared']
+        n += r['seqs']; tainted += r['tainted']; events += r['events']; ledger += r['ledger_compared']; lnodes += r.get('ledger_nodes', 0); kmodel += r.get('known_on_model', 0); covc.update(r.get('cov', {}))
     rep.cov.update(evaluations=n, distinct_nontrivial=len(finals), op_histogram=dict(hist), allocator_events=events,
-                   sequences_cut_at_known_finding=tainted, ledger_events_compared=ledger, traces_validated_against_impl=n,
+                   sequences_cut_at_known_finding=tainted, ledger_events_compared=ledger, ledger_node_records_compared=lnodes, known_finding_reproduced_on_model=kmodel, calls_vs_theorem_hypotheses=dict(covc), traces_validated_against_impl=n,
                    samples=results[-1]['samples'],
                    rule='contract-respecting LinkBuffer op sequences (generator of C01) executed on the real code with an allocator that never reuses and poisons freed blocks; '
                         'every zero-copy result is re-compared with its snapshot after every later op until its reader is released; every pool Free is checked (once, pool block, no live view, no chained node); '
